@@ -364,6 +364,11 @@ mod proofs {
     const CAP: usize = crate::block_store::BlockStore::CACHE_CAPACITY;
     const CAP2: usize = crate::block_store_cap2::BlockStore::CACHE_CAPACITY;
 
+    /// Unwind bound = cache length + 2: the longest harness loop runs over LEN + 1 snapshot slots.
+    /// Kept minimal on purpose: `truncate_cache`'s eviction loop is unwound that many times even
+    /// where it cannot execute (CBMC sees a symbolic `cache.len()` after the reset/no-reset paths
+    /// of `update_persisted` merge), and each unwinding contains a `pop_front` of a `Block`.
+    /// Unwinding assertions stay on, so a too small bound is reported, not ignored.
     macro_rules! h {
         ($name:ident, $unwind:expr, $body:expr) => {
             #[kani::proof]
@@ -376,33 +381,33 @@ mod proofs {
     }
 
     // ---- real file, CACHE_CAPACITY = 100 ----
-    h!(try_push_step_len0, 6, real::try_push_step::<0, 1>(CAP));
-    h!(try_push_step_len1, 6, real::try_push_step::<1, 2>(CAP));
-    h!(try_push_step_len2, 6, real::try_push_step::<2, 3>(CAP));
-    h!(try_push_step_len3, 6, real::try_push_step::<3, 4>(CAP));
-    h!(update_persisted_step_len0, 6, real::update_persisted_step::<0>(CAP));
-    h!(update_persisted_step_len1, 6, real::update_persisted_step::<1>(CAP));
-    h!(update_persisted_step_len2, 6, real::update_persisted_step::<2>(CAP));
-    h!(truncate_cache_step_len0, 6, real::truncate_cache_step::<0>(CAP));
-    h!(truncate_cache_step_len1, 6, real::truncate_cache_step::<1>(CAP));
-    h!(truncate_cache_step_len2, 6, real::truncate_cache_step::<2>(CAP));
-    h!(truncate_cache_step_len3, 6, real::truncate_cache_step::<3>(CAP));
-    h!(block_lookup_len0, 6, real::block_lookup::<0>());
-    h!(block_lookup_len1, 6, real::block_lookup::<1>());
-    h!(block_lookup_len2, 6, real::block_lookup::<2>());
-    h!(block_lookup_len3, 6, real::block_lookup::<3>());
-    h!(persister_selection_len0, 6, real::persister_selection::<0>());
-    h!(persister_selection_len1, 6, real::persister_selection::<1>());
-    h!(persister_selection_len2, 6, real::persister_selection::<2>());
+    h!(try_push_step_len0, 2, real::try_push_step::<0, 1>(CAP));
+    h!(try_push_step_len1, 3, real::try_push_step::<1, 2>(CAP));
+    h!(try_push_step_len2, 4, real::try_push_step::<2, 3>(CAP));
+    h!(try_push_step_len3, 5, real::try_push_step::<3, 4>(CAP));
+    h!(update_persisted_step_len0, 2, real::update_persisted_step::<0>(CAP));
+    h!(update_persisted_step_len1, 3, real::update_persisted_step::<1>(CAP));
+    h!(update_persisted_step_len2, 4, real::update_persisted_step::<2>(CAP));
+    h!(truncate_cache_step_len0, 2, real::truncate_cache_step::<0>(CAP));
+    h!(truncate_cache_step_len1, 3, real::truncate_cache_step::<1>(CAP));
+    h!(truncate_cache_step_len2, 4, real::truncate_cache_step::<2>(CAP));
+    h!(truncate_cache_step_len3, 5, real::truncate_cache_step::<3>(CAP));
+    h!(block_lookup_len0, 2, real::block_lookup::<0>());
+    h!(block_lookup_len1, 3, real::block_lookup::<1>());
+    h!(block_lookup_len2, 4, real::block_lookup::<2>());
+    h!(block_lookup_len3, 5, real::block_lookup::<3>());
+    h!(persister_selection_len0, 2, real::persister_selection::<0>());
+    h!(persister_selection_len1, 3, real::persister_selection::<1>());
+    h!(persister_selection_len2, 4, real::persister_selection::<2>());
 
     // ---- derived copy, CACHE_CAPACITY = 2: eviction boundary ----
-    h!(truncate_cache_cap2_len2, 6, cap2::truncate_cache_step::<2>(CAP2));
-    h!(truncate_cache_cap2_len3, 6, cap2::truncate_cache_step::<3>(CAP2));
+    h!(truncate_cache_cap2_len2, 4, cap2::truncate_cache_step::<2>(CAP2));
+    h!(truncate_cache_cap2_len3, 5, cap2::truncate_cache_step::<3>(CAP2));
     h!(truncate_cache_cap2_len4, 6, cap2::truncate_cache_step::<4>(CAP2));
-    h!(try_push_cap2_len1, 6, cap2::try_push_step::<1, 2>(CAP2));
-    h!(try_push_cap2_len2, 6, cap2::try_push_step::<2, 3>(CAP2));
-    h!(try_push_cap2_len3, 6, cap2::try_push_step::<3, 4>(CAP2));
-    h!(update_persisted_cap2_len3, 6, cap2::update_persisted_step::<3>(CAP2));
+    h!(try_push_cap2_len1, 3, cap2::try_push_step::<1, 2>(CAP2));
+    h!(try_push_cap2_len2, 4, cap2::try_push_step::<2, 3>(CAP2));
+    h!(try_push_cap2_len3, 5, cap2::try_push_step::<3, 4>(CAP2));
+    h!(update_persisted_cap2_len3, 5, cap2::update_persisted_step::<3>(CAP2));
 
     /// The derived copy differs from the real file in the constant only (checked at build time
     /// textually; here: the values).
